@@ -41,6 +41,7 @@ def check(ctx):
     for n in strip_doc(init.node.body):
         if isinstance(n, ast.Assign) and isinstance(n.targets[0], ast.Name) and n.targets[0].id == "size":
             b = terms.Builder(P, init, {"duration": nf.sym("D"), "step_time": nf.sym("T"), "inclusive": nf.sym("I")}, inline_depth=0)
+            terms.prime(b, init.node, n, skip=("duration", "step_time", "inclusive", "size"))
             got = b.t(n.value)
             nsites += 1
             ok = nf.equal(got, want)
@@ -59,6 +60,7 @@ def check(ctx):
         for z in sizes:
             b = terms.Builder(P, s, {}, inline_depth=0)
             b.env.update({"self.__duration": nf.sym("D"), "self.__dt": nf.sym("T"), "self.__inclusive": nf.sym("I")})
+            terms.prime(b, s.node, z.ast, skip=("value", "size"))
             got = b.t(z.ast.value)
             nsites += 1
             ok = nf.equal(got, want)
